@@ -417,6 +417,16 @@ class Model:
                     return "super", [m.qualname]
                 return "attr", [f.attr]
             text = dotted(f)
+            if text and text.split(".")[0] == "settings" and "apischema.settings" in self.modules:
+                # settings.<attr>(...) / settings.<namespace>.<attr>(...): the default value of the setting
+                parts = text.split(".")
+                cq = ".".join(["apischema.settings.settings"] + parts[1:-1])
+                if cq in self.classes:
+                    v = self.classes[cq].attrs.get(parts[-1])
+                    if isinstance(v, (ast.Name, ast.Attribute)) and dotted(v):
+                        q = self.resolve_dotted(self.modules["apischema.settings"], dotted(v))
+                        if q in self.functions:
+                            return "func", [q]
             if text:
                 q = self.resolve_dotted(mod, text)
                 if q in self.functions:
